@@ -292,6 +292,7 @@ type world struct {
 	// silent: monitor-only history (ids that collide under case folding are outside the model's
 	// assumptions, so its lines are not compared; the monitors still judge the implementation)
 	silent bool
+	tokens *token.Store
 }
 
 func newFSM() *fsm.FSM {
@@ -321,6 +322,7 @@ func newWorldACL(run *hx.Run, nodeVal int, cfgTok, userTok string, aclMode bool,
 		NodeName:            nodeName,
 		TaggedAddresses:     map[string]string{"lan": nodeAddr},
 	}, hclog.NewNullLogger(), tokens)
+	w.tokens = tokens
 	w.st.TriggerSyncChanges = func() {}
 	w.st.Delegate = w
 	if err := w.st.LoadMetadata(map[string]string{"v": strconv.Itoa(nodeVal)}); err != nil {
@@ -799,6 +801,10 @@ func (w *world) exec(o op) {
 		})
 		run.Tag("op:drmnode:" + res)
 		w.line("drmnode", res+" "+w.snapshot().dump())
+	case "agenttok":
+		w.tokens.UpdateAgentToken(o.tok, token.TokenSourceAPI)
+		w.agentTok = o.tok
+		run.Tag("op:agent-token-changed")
 	case "full", "partial":
 		w.sync(o)
 	default:
@@ -911,6 +917,14 @@ func (w *world) sync(o op) {
 	}
 	if !pre.localWF() {
 		run.Tag("sync:local-state-not-well-formed(raw ops)")
+	}
+	for _, c := range calls {
+		if e, ok := pre.ls[c.id]; ok && c.kind == "sdel" && !e.live() && e.inSync {
+			run.Tag("dereg:refused-service-deregistration-reattempted:" + o.kind)
+		}
+		if e, ok := pre.lc[c.id]; ok && c.kind == "cdel" && !e.live() && e.inSync {
+			run.Tag("dereg:refused-check-deregistration-reattempted:" + o.kind)
+		}
 	}
 	run.Tag(fmt.Sprintf("op:%s:%s:%s", o.kind, map[bool]string{true: "clean", false: "faulty"}[clean], res))
 	w.line(fmt.Sprintf("%s %s %s %s", o.kind, encFaults(lineFaults), hx.EncSList(so), hx.EncSList(co)), res+" "+post.dump())
@@ -1147,6 +1161,33 @@ func (w *world) monitors(kind string, pre, post snap, calls []call, clean bool, 
 				w.run.Tag("monitor:retry:stale-service-mark")
 				if _, ok := svcCall[id]; !ok {
 					w.violate("retry:full-sync-skips-service-absent-from-catalog", fmt.Sprintf("service %q is marked in sync, absent from the catalog, and the full sync issued no RPC for it", id))
+				}
+			}
+		}
+		// ... and the deregistration of every entry pending removal that the catalog still holds,
+		// whatever its in-sync flag says (a refused Deregister leaves the entry Deleted AND InSync)
+		for id, pe := range pre.ls {
+			if _, held := pre.cs[id]; !pe.live() && held {
+				if pe.inSync {
+					w.run.Tag("monitor:retry:refused-service-deregistration-pending")
+				}
+				if c, ok := svcCall[id]; !ok || c.kind != "sdel" {
+					w.violate("retry:full-sync-skips-pending-service-deregistration", fmt.Sprintf("service %q is pending deregistration (inSync=%v), the catalog holds it, and the full sync issued no Deregister for it", id, pe.inSync))
+				}
+			}
+		}
+		for id, pe := range pre.lc {
+			if _, held := pre.cc[id]; !pe.live() && held {
+				if pe.inSync {
+					w.run.Tag("monitor:retry:refused-check-deregistration-pending")
+				}
+				if !pe.ghost && pe.d.sid != "" {
+					if c, ok := svcCall[pe.d.sid]; ok && c.kind == "sdel" && c.outcome == "ok" {
+						continue // dropped together with its service (server-side cascade; see the forgot monitor)
+					}
+				}
+				if c, ok := chkCall[id]; !ok || c.kind != "cdel" {
+					w.violate("retry:full-sync-skips-pending-check-deregistration", fmt.Sprintf("check %q is pending deregistration (inSync=%v), the catalog holds it, and the full sync issued no Deregister for it", id, pe.inSync))
 				}
 			}
 		}
@@ -1493,6 +1534,41 @@ func scripted(run *hx.Run) {
 		w.exec(op{kind: "dsvc", id: "api", sd: api})
 		w.finishCase()
 	}
+	// 9. refused DEregistrations (service, its check, a node check; "Permission denied" and "ACL not
+	//    found" forms) leave the entries Deleted+InSync; once the refusal is lifted the next full sync
+	//    (9a) — or the next partial sync (9b) — must deregister them
+	for _, variant := range []string{"full", "partial-then-full"} {
+		w := newWorld(run, 1, "", "")
+		w.exec(op{kind: "addsvc", id: "web", sd: web, chks: []chkItem{{"c1", c1}}})
+		w.exec(op{kind: "addsvc", id: "api", sd: api})
+		w.exec(op{kind: "addchk", id: "c2", cd: chkDef{status: 1}})
+		w.exec(op{kind: "full"})
+		w.exec(op{kind: "rmsvc", id: "web", ids: []string{"c1"}})
+		w.exec(op{kind: "rmchk", id: "c2"})
+		w.exec(op{kind: "full", faults: map[string]string{"s!web": "denied", "c!c1": "denied", "c!c2": "denied"}})
+		w.exec(op{kind: "full", faults: map[string]string{"s!web": "denied", "c!c1": "denied", "c!c2": "denied"}})
+		if variant == "partial-then-full" {
+			w.exec(op{kind: "partial"})
+		}
+		w.exec(op{kind: "full"})
+		w.finishCase()
+		run.Tag("scripted:refused-deregistration-then-lifted:" + variant)
+	}
+	// 10. the same with real ACL policies: the agent token may write neither the node nor service db, so
+	//     Catalog.Deregister(db) is refused by vetDeregisterWithACL; then the agent token is fixed
+	{
+		w := newWorldACL(run, 1, "", "", true, "t1")
+		db := svcDef{name: "db", port: 5432}
+		w.exec(op{kind: "addsvc", id: "db", sd: db, tok: "t2", chks: []chkItem{{"c3", chkDef{sid: "db", status: 0, sname: "db"}}}})
+		w.exec(op{kind: "full"})
+		w.exec(op{kind: "rmsvc", id: "db", ids: []string{"c3"}})
+		w.exec(op{kind: "full"})
+		w.exec(op{kind: "partial"})
+		w.exec(op{kind: "agenttok", tok: "agent-token"})
+		w.exec(op{kind: "full"})
+		w.finishCase()
+		run.Tag("scripted:refused-deregistration-real-acl-then-token-fixed")
+	}
 	// 8. (monitor only) ids that differ only in case: the catalog lower-cases ids in its index keys, the
 	//    agent's maps do not. Known finding; outside the model's assumptions, so no lines are compared.
 	{
@@ -1517,7 +1593,7 @@ func scripted(run *hx.Run) {
 
 // fault vectors over a fixed small scenario with 7 RPCs: every vector of {ok,denied,fail}^7 in the
 // thorough tier (a quarter of them in quick) plus a sample of vectors that also use "lost"
-func faultScenario(run *hx.Run, f map[string]string) {
+func faultScenario(run *hx.Run, f map[string]string, withPartial bool) {
 	web := svcDef{name: "web", tags: []string{"a"}, port: 80}
 	api := svcDef{name: "api", port: 81}
 	w := newWorld(run, 1, "", "")
@@ -1531,7 +1607,9 @@ func faultScenario(run *hx.Run, f map[string]string) {
 	w.exec(op{kind: "dsvc", id: "db", sd: svcDef{name: "db", port: 5432}})
 	w.exec(op{kind: "dchk", id: "c3", cd: chkDef{sid: "db", status: 2}})
 	w.exec(op{kind: "full", faults: f})
-	w.exec(op{kind: "partial"})
+	if withPartial { // otherwise the two clean full syncs of finishCase follow the faulty one directly
+		w.exec(op{kind: "partial"})
+	}
 	w.finishCase()
 	run.Tag("fault-vector-scenario")
 }
@@ -1554,11 +1632,11 @@ func exhaustive(run *hx.Run) {
 		if !run.Thorough() && v%4 != int(run.Seed%4) {
 			continue
 		}
-		faultScenario(run, vec(v, three))
+		faultScenario(run, vec(v, three), v%2 == 0)
 	}
 	r := run.RNG.Fork(0xfa17)
 	for i := run.Scale(150, 500); i > 0; i-- {
-		faultScenario(run, vec(r.Intn(16384), four))
+		faultScenario(run, vec(r.Intn(16384), four), r.Bool())
 	}
 	run.Extra["exhaustive"] = map[string]any{"scenario": "7 RPCs (node, 3 services, 3 checks)", "alphabet": "ok,denied,fail", "complete": run.Thorough()}
 }
